@@ -801,8 +801,21 @@ func checkLibraryTokenizer(c *Ctx, u *U, tok *ssa.Function, str, res, rem *E) {
 			case lc == False:
 			case isS && sv == "":
 				okRem = okRem && u.bdd.Implies(lc, notFound)
-			case isCall(leaf, "strings.TrimLeft") && leaf.Args[0].Op == "slice" && leaf.Args[0].Args[0] == T && leaf.Args[0].Args[1] == end && leaf.Args[0].Args[2] == nil:
-				okRem = okRem && u.bdd.Implies(lc, u.bdd.Not(notFound))
+			case isCall(leaf, "strings.TrimLeft"):
+				// TrimLeft(tail, blanks): tail = trimmed[end:] when a blank follows, the empty
+				// trimmed[len(trimmed):] otherwise (possibly selected inside the call)
+				for tl, tc := range u.Leaves(leaf.Args[0]) {
+					cnd := u.bdd.And(lc, tc)
+					switch {
+					case cnd == False:
+					case tl.Op == "slice" && tl.Args[0] == T && tl.Args[1] == end && tl.Args[2] == nil:
+						okRem = okRem && u.bdd.Implies(cnd, u.bdd.Not(notFound))
+					case tl.Op == "slice" && tl.Args[0] == T && tl.Args[1] == u.Len(T) && tl.Args[2] == nil:
+						okRem = okRem && u.bdd.Implies(cnd, notFound)
+					default:
+						okRem = false
+					}
+				}
 				cs3, ok3 = blanks(leaf.Args[1])
 			default:
 				okRem = false
